@@ -39,6 +39,9 @@ class NormForm:
                 self.model_quals.add(k.qual)
         self._param_cache: dict = {}
         self._ret_cache: dict = {}
+        self._param_fn: dict = {}
+        self._ret_fn: dict = {}
+        self._sites_cache: dict = {}
         self._stack: set = set()
         self.cqt = prog.try_cls("utils.entities.ColumnQualifierTuple")
         # the provider's session map (names stored there were registered from normalised Column objects)
@@ -101,6 +104,8 @@ class NormForm:
             nm = f.attr if isinstance(f, ast.Attribute) else f.id if isinstance(f, ast.Name) else ""
             if nm in RAW_CALLS:
                 return {RAW}
+            if nm == "raw_normalized" and isinstance(f, ast.Attribute):
+                return {N1}  # sqlfluff's own normaliser: the quotes are gone, and with them what the repository's normaliser needs to keep the case
             if nm == "str" and e.args:
                 if self.model_typed(e.args[0], fn):
                     return {N1}
@@ -273,44 +278,101 @@ class NormForm:
                                     from_ctor(r.value, cal)
         return out or {UNK}
 
-    def return_state(self, f: Fn, depth: int) -> set[str]:
-        if f.qual in self._ret_cache:
-            return self._ret_cache[f.qual]
-        self._ret_cache[f.qual] = {UNK}
+    # ---- summaries of functions: state of the return value, state of a parameter over all call sites -----------------------------
+    # Both are least fixed points over the call graph.  A first demand computes an approximation (a summary that is being computed
+    # answers with what is known so far); `solve()` then re-computes every summary from the others until nothing grows.  Rules call
+    # `solve()` after a warm-up pass over their sites, so that verdicts do not depend on the order in which sites are visited.
+    def _compute_return(self, f: Fn) -> set[str]:
         out: set[str] = set()
         for r in self.prog.walk_fn(f):
             if isinstance(r, ast.Return) and r.value is not None:
-                out |= self.state(r.value, f, depth + 1)
-        self._ret_cache[f.qual] = out or {UNK}
-        return self._ret_cache[f.qual]
+                out |= self.state(r.value, f, 1)
+        return out
 
-    def param_state(self, f: Fn, name: str, depth: int) -> set[str]:
-        key = (f.qual, name)
-        if key in self._param_cache:
-            return self._param_cache[key]
-        self._param_cache[key] = set()
+    def return_state(self, f: Fn, depth: int) -> set[str]:
+        key = f.qual
+        if key in self._ret_cache:
+            return self._ret_cache[key] or {UNK}
+        self._ret_cache[key] = set()
+        self._ret_fn[key] = f
+        self._ret_cache[key] = self._ret_cache[key] | self._compute_return(f)
+        return self._ret_cache[key] or {UNK}
+
+    def _compute_param(self, f: Fn, name: str) -> set[str]:
         prog = self.prog
         out: set[str] = set()
         ps = f.params()
         offset = 1 if (f.cls is not None and f.kind in ("method", "classmethod") and ps and ps[0] in ("self", "cls")) else 0
-        if name not in ps:
-            return {UNK}
         pi = ps.index(name) - offset
-        for g in prog.funcs.values():
-            for n in prog.walk_fn(g):
-                if not isinstance(n, ast.Call):
-                    continue
-                callees = prog.resolve_call(n, g)
-                hit = f in callees
-                if not hit and f.name == "__init__" and f.cls is not None and isinstance(n.func, (ast.Name, ast.Attribute)):
-                    t = prog.infer(n.func, g)
-                    hit = any(a.kind == "cls" and a.name in ({f.cls.qual} | {k.qual for k in prog.subclasses(f.cls)}) for a in t.alts())
-                if not hit:
-                    continue
-                if 0 <= pi < len(n.args):
-                    out |= self.state(n.args[pi], g, depth + 1)
-                for kw in n.keywords:
-                    if kw.arg == name:
-                        out |= self.state(kw.value, g, depth + 1)
-        self._param_cache[key] = out or {UNK}
-        return self._param_cache[key]
+        for g, n in self._call_sites(f):
+            if 0 <= pi < len(n.args):
+                out |= self.state(n.args[pi], g, 1)
+            for kw in n.keywords:
+                if kw.arg == name:
+                    out |= self.state(kw.value, g, 1)
+        return out
+
+    def _call_sites(self, f: Fn) -> list:
+        if f.qual not in self._sites_cache:
+            prog = self.prog
+            sites = []
+            targets = ({f.cls.qual} | {k.qual for k in prog.subclasses(f.cls)}) if f.name == "__init__" and f.cls is not None else set()
+            for g in prog.funcs.values():
+                for n in prog.walk_fn(g):
+                    if not isinstance(n, ast.Call):
+                        continue
+                    hit = f in prog.resolve_call(n, g)
+                    if not hit and targets and isinstance(n.func, (ast.Name, ast.Attribute)):
+                        t = prog.infer(n.func, g)
+                        hit = any(a.kind == "cls" and a.name in targets for a in t.alts())
+                    if hit:
+                        sites.append((g, n))
+            self._sites_cache[f.qual] = sites
+        return self._sites_cache[f.qual]
+
+    def param_state(self, f: Fn, name: str, depth: int) -> set[str]:
+        key = (f.qual, name)
+        if key in self._param_cache:
+            return self._param_cache[key] or {UNK}
+        if name not in f.params():
+            return {UNK}
+        self._param_cache[key] = set()
+        self._param_fn[key] = f
+        self._param_cache[key] = self._param_cache[key] | self._compute_param(f, name)
+        return self._param_cache[key] or {UNK}
+
+    def query(self, e: ast.AST, fn: Fn) -> set[str]:
+        """state() at the fixed point of the summaries (what rules should call)."""
+        return self._at_fixed_point(lambda: self.state(e, fn))
+
+    def query_elems(self, it: ast.AST, fn: Fn, idx: Optional[int] = None) -> set[str]:
+        return self._at_fixed_point(lambda: self.elem_state(it, fn, 0, idx))
+
+    def _at_fixed_point(self, compute):
+        r = compute()
+        n_keys = len(self._ret_cache) + len(self._param_cache)
+        if n_keys != getattr(self, "_solved_keys", -1):
+            self.solve()
+            self._solved_keys = len(self._ret_cache) + len(self._param_cache)
+            r = compute()
+            if len(self._ret_cache) + len(self._param_cache) != self._solved_keys:  # the second evaluation demanded further summaries
+                return self._at_fixed_point(compute)
+        return r
+
+    def solve(self, max_rounds: int = 12) -> int:
+        """Re-compute every summary demanded so far from the current values of the others until none grows; returns the number of rounds."""
+        for rnd in range(1, max_rounds + 1):
+            changed = False
+            for key in list(self._ret_cache):
+                new = self._ret_cache[key] | self._compute_return(self._ret_fn[key])
+                if new != self._ret_cache[key]:
+                    self._ret_cache[key] = new
+                    changed = True
+            for key in list(self._param_cache):
+                new = self._param_cache[key] | self._compute_param(self._param_fn[key], key[1])
+                if new != self._param_cache[key]:
+                    self._param_cache[key] = new
+                    changed = True
+            if not changed:
+                return rnd
+        return max_rounds
